@@ -741,6 +741,12 @@ class Machine:
     def coerce_return(self, fn, out):
         return out
 
+    def oblige(self, fr, guard, cond, what):
+        """panic obligation: on every live path reaching this point `cond` must hold (collected only when a checker asks)"""
+        obs = getattr(self, "obligations", None)
+        if obs is not None and not (not is_sym(cond) and cond is True):
+            obs.append((self.live(fr, guard) if fr is not None else guard, cond, what))
+
     def live(self, fr, guard):
         return And(guard, Not(fr.ret), Not(fr.brk), Not(fr.cont))
 
@@ -875,6 +881,16 @@ class Machine:
                 return (bv if lit["v"] else Not(bv)), {}
             if lit["k"] == "int" and (is_intterm(val) or isinstance(val, int)):
                 return val == int(lit["v"]), {}
+            if lit["k"] == "char":
+                allowed = getattr(val, "allowed", None)
+                if allowed is not None:
+                    if lit["v"] not in allowed:
+                        return False, {}           # a symbolic character of a class that excludes the literal
+                    return to_strz(val) == z3.StringVal(lit["v"]), {}
+                if isinstance(val, str):
+                    return val == lit["v"], {}
+                if isinstance(val, StrZ):
+                    return to_strz(val) == z3.StringVal(lit["v"]), {}
             raise Unsupported("literal pattern kind %s" % lit["k"])
         if k == "por":
             conds = []
@@ -1662,6 +1678,7 @@ class Machine:
             if meth == "unwrap_or":
                 return merge(B(recv.present), recv.val, args[0]) if recv.val is not None else args[0]
             if meth in ("unwrap", "expect"):
+                self.oblige(fr, guard, recv.present, "Option::%s on None (line %s)" % (meth, e.get("line")))
                 return recv.val
             if meth == "map":
                 if not isinstance(args[0], Closure):
@@ -1690,6 +1707,7 @@ class Machine:
             if meth == "ok":
                 return Opt(recv.ok, recv.val)
             if meth in ("unwrap", "expect"):
+                self.oblige(fr, guard, recv.ok, "Result::%s on Err (line %s)" % (meth, e.get("line")))
                 return recv.val
             if meth == "map":
                 if not isinstance(args[0], Closure) or recv.val is None:
